@@ -10,7 +10,7 @@ DEFAULT = {
 }
 REVERT = {"12105e7": ["C20"], "51f7c5b": ["C14", "C05"], "68c531e": ["C15"], "087feea": ["C20"], "745a4ef": ["C20"], "2159c02": ["C13", "C12"],
           "f2f2650": ["C08", "C01"], "5dedb9b": ["C08"], "d9a3c32": ["C08"], "8d6dc1d": ["C15", "C09", "C08"],
-          "757c07d": ["C08"], "f0fc689": ["C14"], "3581ec3": ["C14"], "1ab53b3": ["C17"], "124adb2": ["C14"]}
+          "757c07d": ["C08"], "f0fc689": ["C14"], "3581ec3": ["C14"], "1ab53b3": ["C17"], "124adb2": ["C14"], "fb3f760": ["C15", "C03", "C01"]}
 def sh(cmd, **kw):
     return subprocess.run(cmd, shell=True, capture_output=True, text=True, errors="replace", **kw)
 assert sh("git -C /repo status --short").stdout.strip() == "", "/repo not clean"
